@@ -371,7 +371,8 @@ def sc_c06(name, seed, mtu, bridged):
     ns = [1, 2, 3, cap - 1, cap] + [rng.randrange(1, cap + 1) for _ in range(3)]
     for n in ns:
         seq += 1
-        s.rx(1, emit(m, OWN, descs(n), seq=seq, eth_src=eth if rng.random() < 0.8 else m))
+        # what lies behind the frame in the reused receive buffer is none of the Emit's business
+        s.rx(1, emit(m, OWN, descs(n), seq=seq, eth_src=eth if rng.random() < 0.8 else m), fill=rng.choice([0, 0, 0xFF, 0xC0, 2, 1]))
     # declared counts exceeding what the frame carries
     for n in [1, 2, rng.randrange(1, 10)]:
         for declared in [n + 1, cap + 1, 0xFFFF, rng.randrange(n + 1, 0x10000)]:
